@@ -1,7 +1,286 @@
-(* NTT120 scalar layer (q120 b/c formats, CRT reconstruction): model + executable entry for opcodes 71xx.
-   Stub: filled in by the NTT120 development. *)
+(* NTT120 scalar layer (q120 a/b/c formats, lazy accumulators, CRT reconstruction): model + executable entry for
+   opcodes 71xx.  Faithful to poulpy-cpu-ref/src/reference/ntt120/{arithmetic,mat_vec,types}.rs and to the
+   add/sub/negate loops of poulpy-cpu-ref/src/ntt120/prim.rs.  Constants come from Gen/C07Consts_gen.v.
+   Conventions: a u64 value is a Z in [0, 2^64); every u64 `+`/`*` that the Rust code performs is written
+   `u64 (..)` (= wrapu 64, release semantics); `x & (2^k - 1)` is `x mod 2^k`, `x >> k` is `x / 2^k`
+   (both on non-negative values); i128 arithmetic goes through `wrap 128`.
+   The butterfly networks (ntt_ref / intt_ref) are NOT modelled here. *)
 From PV Require Import Base.MachineInt.
+From PV Require Export Gen.C07Consts_gen.
 Open Scope Z_scope.
 
-Definition run_c07_ntt (code : Z) (ps : list Z) (vs : list (list Z)) : option (list (list Z)) := None.
-Definition oracle_c07_ntt (code : Z) (ps : list Z) (vs outs : list (list Z)) : Z := 2.
+Definition u64 (x : Z) : Z := wrapu 64 x.
+Definition u32 (x : Z) : Z := wrapu 32 x.
+Definition i128 (x : Z) : Z := wrap 128 x.
+Definition qk (ps : primeset) (k : nat) : Z := nth k (ps_Q ps) 1.
+Definition crtk (ps : primeset) (k : nat) : Z := nth k (ps_CRT ps) 0.
+Definition omegak (ps : primeset) (k : nat) : Z := nth k (ps_OMEGA ps) 0.
+
+(* mod.rs pow2_mod: square-and-multiply with u128 intermediates, exact *)
+Definition pow2_mod (e q : Z) : Z := 2 ^ e mod q.
+
+(* ---------------- arithmetic.rs ---------------- *)
+
+(* OQ[k] = Q[k] - (2^63 mod Q[k]) *)
+Definition oq (q : Z) : Z := q - 2 ^ 63 mod q.
+
+(* b_from_znx64_ref, one coefficient, one prime: x is an i64 *)
+Definition b_from_znx64_k (q x : Z) : Z :=
+  let xu := u64 x in                       (* x as u64 *)
+  let is_neg := 2 ^ 63 - 1 <? xu in        (* xu > mask_lo *)
+  let xl := xu mod 2 ^ 63 in               (* xu & mask_lo *)
+  u64 (xl + (if is_neg then oq q else 0)).
+Definition b_from_znx64 (ps : primeset) (x : Z) : list Z := map (fun q => b_from_znx64_k q x) (ps_Q ps).
+(* b_from_znx64_masked_ref: (x & mask) on i64 = two's-complement land *)
+Definition b_from_znx64_masked (ps : primeset) (mask x : Z) : list Z := b_from_znx64 ps (Z.land x mask).
+
+(* c_from_znx64_ref: r = x.rem_euclid(q); [r as u32, ((r << 32) % q) as u32] *)
+Definition c_from_znx64_k (q x : Z) : list Z :=
+  let r := x mod q in [u32 r; u32 (u64 (r * 2 ^ 32) mod q)].
+Definition c_from_znx64 (ps : primeset) (x : Z) : list Z := flat_map (fun q => c_from_znx64_k q x) (ps_Q ps).
+
+(* c_from_b_ref: x a u64 residue *)
+Definition c_from_b_k (q x : Z) : list Z :=
+  let r := x mod q in [u32 r; u32 (u64 (r * 2 ^ 32) mod q)].
+Definition c_from_b (ps : primeset) (x : list Z) : list Z :=
+  flat_map (fun p => c_from_b_k (fst p) (snd p)) (combine (ps_Q ps) x).
+
+(* b_to_znx128_ref for one coefficient (x = its four u64 residues) *)
+Definition total_q (ps : primeset) : Z :=
+  i128 (i128 (i128 (qk ps 0 * qk ps 1) * qk ps 2) * qk ps 3).
+Definition qm (ps : primeset) (k : nat) : Z :=
+  match k with
+  | 0%nat => i128 (i128 (qk ps 1 * qk ps 2) * qk ps 3)
+  | 1%nat => i128 (i128 (qk ps 0 * qk ps 2) * qk ps 3)
+  | 2%nat => i128 (i128 (qk ps 0 * qk ps 1) * qk ps 3)
+  | _ => i128 (i128 (qk ps 0 * qk ps 1) * qk ps 2)
+  end.
+Definition crt_term (ps : primeset) (k : nat) (xk : Z) : Z :=
+  let r := xk mod qk ps k in                               (* (x % Q[k] as u64) as i128 *)
+  let t := Z.rem (i128 (r * crtk ps k)) (qk ps k) in       (* (xk * crt[k]) % q[k]  (i128 %, truncating) *)
+  i128 (t * qm ps k).
+Definition b_to_znx128 (ps : primeset) (x : list Z) : Z :=
+  let tmp := fold_left (fun acc k => i128 (acc + crt_term ps k (nth k x 0))) (seq 0 4) 0 in
+  let tq := total_q ps in
+  let tmp := Z.rem tmp tq in
+  let half := Z.quot (i128 (tq + 1)) 2 in
+  if half <=? tmp then i128 (tmp - tq) else tmp.
+
+(* add_bbb_ref / prim.rs NttAdd..NttNegate: per residue, qs = Q[k] << 33 *)
+Definition qshift (q : Z) : Z := u64 (q * 2 ^ q_shift).
+Definition add_bbb_k (q x y : Z) : Z := u64 (x mod qshift q + y mod qshift q).
+Definition sub_bbb_k (q x y : Z) : Z := u64 (x mod qshift q + u64 (qshift q - y mod qshift q)).
+Definition neg_b_k (q x : Z) : Z := u64 (qshift q - x mod qshift q).
+(* add_ccc_ref: per u32 entry *)
+Definition add_ccc_k (q x y : Z) : Z := u32 (u64 (x + y) mod q).
+
+(* ---------------- mat_vec.rs ---------------- *)
+Definition sum64 (l : list Z) : Z := fold_left (fun s t => u64 (s + t)) l 0.
+
+(* vec_mat1col_product_baa_ref, one prime: pairs (x, y) of u32 *)
+Definition baa_k (h q : Z) (xy : list (Z * Z)) : Z :=
+  let t := map (fun p => u64 (fst p * snd p)) xy in
+  let acc1 := sum64 (map (fun t => t mod 2 ^ h) t) in
+  let acc2 := sum64 (map (fun t => t / 2 ^ h) t) in
+  u64 (acc1 + u64 (acc2 * pow2_mod h q)).
+
+(* vec_mat1col_product_bbb_ref, one prime: pairs (x, y) of u64 *)
+Definition bbb_parts (p : Z * Z) : Z * Z * Z * Z :=
+  let xl := fst p mod 2 ^ 32 in let xh := fst p / 2 ^ 32 in
+  let yl := snd p mod 2 ^ 32 in let yh := snd p / 2 ^ 32 in
+  let a := u64 (xl * yl) in let b := u64 (xl * yh) in let c := u64 (xh * yl) in let d := u64 (xh * yh) in
+  (a mod 2 ^ 32,
+   u64 (u64 (a / 2 ^ 32 + b mod 2 ^ 32) + c mod 2 ^ 32),
+   u64 (u64 (b / 2 ^ 32 + c / 2 ^ 32) + d mod 2 ^ 32),
+   d / 2 ^ 32).
+Definition bbb_k (h q : Z) (xy : list (Z * Z)) : Z :=
+  let ps := map bbb_parts xy in
+  let s1 := sum64 (map (fun p => fst (fst (fst p))) ps) in
+  let s2 := sum64 (map (fun p => snd (fst (fst p))) ps) in
+  let s3 := sum64 (map (fun p => snd (fst p)) ps) in
+  let s4 := sum64 (map (fun p => snd p) ps) in
+  let lo s := s mod 2 ^ h in let hi s := s / 2 ^ h in
+  let s1h_pow := u64 (2 ^ h) in
+  let s2l_pow := pow2_mod 32 q in
+  let s2h_pow := u64 (s2l_pow * s1h_pow) mod q in
+  let s3l_pow := u64 (s2l_pow * s2l_pow) mod q in
+  let s3h_pow := u64 (s3l_pow * s1h_pow) mod q in
+  let s4l_pow := u64 (s3l_pow * s2l_pow) mod q in
+  let s4h_pow := u64 (s4l_pow * s1h_pow) mod q in
+  let t := lo s1 in
+  let t := u64 (t + u64 (hi s1 * s1h_pow)) in
+  let t := u64 (t + u64 (lo s2 * s2l_pow)) in
+  let t := u64 (t + u64 (hi s2 * s2h_pow)) in
+  let t := u64 (t + u64 (lo s3 * s3l_pow)) in
+  let t := u64 (t + u64 (hi s3 * s3h_pow)) in
+  let t := u64 (t + u64 (lo s4 * s4l_pow)) in
+  u64 (t + u64 (hi s4 * s4h_pow)).
+
+(* accum_mul_q120_bc, one prime: a term is ((x_lo, x_hi), (y_lo, y_hi)), four u32;
+   contribution to the low / high accumulator *)
+Definition bbc_lo (t : Z * Z * (Z * Z)) : Z :=
+  let '(xl, xh, (yl, yh)) := t in u64 (u64 (xl * yl) mod 2 ^ 32 + u64 (xh * yh) mod 2 ^ 32).
+Definition bbc_hi (t : Z * Z * (Z * Z)) : Z :=
+  let '(xl, xh, (yl, yh)) := t in u64 (u64 (xl * yl) / 2 ^ 32 + u64 (xh * yh) / 2 ^ 32).
+(* accum_to_q120b, one prime *)
+Definition accum_to_q120b_k (h q slo shi : Z) : Z :=
+  let s2l := shi mod 2 ^ h in             (* s & ((1 << h) - 1) *)
+  let s2h := shi / 2 ^ h in
+  u64 (u64 (slo + u64 (s2l * pow2_mod 32 q)) + u64 (s2h * pow2_mod (32 + h) q)).
+(* vec_mat1col_product_bbc_ref, one prime *)
+Definition bbc_k (h q : Z) (terms : list (Z * Z * (Z * Z))) : Z :=
+  accum_to_q120b_k h q (sum64 (map bbc_lo terms)) (sum64 (map bbc_hi terms)).
+
+(* ---------------- vector level (flat slices as in the Rust signatures) ---------------- *)
+Definition pset (p : Z) : option primeset :=
+  if p =? 29 then Some primes29 else if p =? 30 then Some primes30 else if p =? 31 then Some primes31 else None.
+
+Fixpoint chunks (fuel k : nat) (l : list Z) : list (list Z) :=
+  match fuel with
+  | O => []
+  | S f => match l with [] => [] | _ => firstn k l :: chunks f k (skipn k l) end
+  end.
+Definition chunk (k : nat) (l : list Z) : list (list Z) := chunks (length l) k l.
+Definition nz (l : list Z) (i : nat) : Z := nth i l 0.
+
+(* per-prime view of `ell` consecutive q120 elements of stride `st`, entry offset `o` *)
+Definition col (st o : nat) (l : list Z) : list Z := map (fun c => nz c o) (chunk st l).
+
+(* x: q120b seen as u32 pairs (8 per element); y: q120c (8 per element); both restricted to prime k *)
+Definition bbc_terms (k : nat) (x y : list Z) : list (Z * Z * (Z * Z)) :=
+  combine (combine (col 8 (2 * k) x) (col 8 (2 * k + 1) x)) (combine (col 8 (2 * k) y) (col 8 (2 * k + 1) y)).
+Definition bbc_vec (ps : primeset) (x y : list Z) : list Z :=
+  map (fun k => bbc_k (ps_bbc_h ps) (qk ps k) (bbc_terms k x y)) (seq 0 4).
+
+(* x2 variants: element i holds two q120 values (16 u32) *)
+Definition half (j : nat) (l : list Z) : list Z := concat (map (fun c => firstn 8 (skipn (8 * j) c)) (chunk 16 l)).
+Definition quarter (j : nat) (l : list Z) : list Z := concat (map (fun c => firstn 8 (skipn (8 * j) c)) (chunk 32 l)).
+Definition bbc_x2_vec (ps : primeset) (x y : list Z) : list Z :=
+  bbc_vec ps (half 0 x) (half 0 y) ++ bbc_vec ps (half 1 x) (half 1 y).
+Definition bbc_2cols_x2_vec (ps : primeset) (x y : list Z) : list Z :=
+  bbc_vec ps (half 0 x) (quarter 0 y) ++ bbc_vec ps (half 1 x) (quarter 1 y) ++
+  bbc_vec ps (half 0 x) (quarter 2 y) ++ bbc_vec ps (half 1 x) (quarter 3 y).
+
+Definition bbb_vec (ps : primeset) (x y : list Z) : list Z :=
+  map (fun k => bbb_k (ps_bbb_h ps) (qk ps k) (combine (col 4 k x) (col 4 k y))) (seq 0 4).
+Definition baa_vec (ps : primeset) (x y : list Z) : list Z :=
+  map (fun k => baa_k (ps_baa_h ps) (qk ps k) (combine (col 4 k x) (col 4 k y))) (seq 0 4).
+
+(* element-wise maps over flat q120b / q120c slices *)
+Definition map_b (f : Z -> Z -> Z) (ps : primeset) (x : list Z) : list Z :=
+  concat (map (fun c => map (fun k => f (qk ps k) (nz c k)) (seq 0 4)) (chunk 4 x)).
+Definition map2_b (f : Z -> Z -> Z -> Z) (ps : primeset) (x y : list Z) : list Z :=
+  concat (map (fun p => map (fun k => f (qk ps k) (nz (fst p) k) (nz (snd p) k)) (seq 0 4)) (combine (chunk 4 x) (chunk 4 y))).
+Definition add_ccc_vec (ps : primeset) (x y : list Z) : list Z :=
+  concat (map (fun p => map (fun i => add_ccc_k (qk ps (i / 2)) (nz (fst p) i) (nz (snd p) i)) (seq 0 8))
+              (combine (chunk 8 x) (chunk 8 y))).
+
+(* the constants of the three Meta structs, as the harness prints them *)
+Definition meta_consts (ps : primeset) : list (list Z) :=
+  let q := ps_Q ps in
+  let bh := ps_bbb_h ps in
+  let s1h := u64 (2 ^ bh) in
+  let s2l := map (pow2_mod 32) q in
+  let mulq (a b : list Z) := map (fun p => u64 (fst (fst p) * snd (fst p)) mod snd p) (combine (combine a b) q) in
+  let c1 := map (fun _ => s1h) q in
+  let s2h := mulq s2l c1 in
+  let s3l := mulq s2l s2l in
+  let s3h := mulq s3l c1 in
+  let s4l := mulq s3l s2l in
+  let s4h := mulq s4l c1 in
+  [ ps_baa_h ps :: map (pow2_mod (ps_baa_h ps)) q;
+    bh :: s1h :: s2l ++ s2h ++ s3l ++ s3h ++ s4l ++ s4h;
+    ps_bbc_h ps :: map (pow2_mod 32) q ++ map (pow2_mod (32 + ps_bbc_h ps)) q;
+    Q_SHIFTED ].
+
+Definition npar (ps : list Z) (i : nat) : Z := nth i ps 0.
+Definition nvec (vs : list (list Z)) (i : nat) : list Z := nth i vs [].
+
+(* header: be pset [extra]; be = 3 reference functions, 4 = the NTT120Avx trait implementations (Primes30 only) *)
+Definition run_c07_ntt (code : Z) (ps : list Z) (vs : list (list Z)) : option (list (list Z)) :=
+  match pset (npar ps 1) with
+  | None => None
+  | Some P =>
+    let x := nvec vs 0 in let y := nvec vs 1 in
+    match code with
+    | 7100 => Some (meta_consts P)
+    | 7101 => Some [flat_map (b_from_znx64 P) x]
+    | 7102 => Some [flat_map (b_from_znx64_masked P (npar ps 2)) x]
+    | 7103 => Some [flat_map (c_from_znx64 P) x]
+    | 7104 => Some [concat (map (c_from_b P) (chunk 4 x))]
+    | 7105 => Some [map (b_to_znx128 P) (chunk 4 x)]
+    | 7106 => Some [map2_b add_bbb_k P x y]
+    | 7107 => Some [add_ccc_vec P x y]
+    | 7108 => Some [map2_b sub_bbb_k P x y]
+    | 7109 => Some [map_b neg_b_k P x]
+    | 7110 => Some [bbc_vec P x y]
+    | 7111 => Some [bbc_x2_vec P x y]
+    | 7112 => Some [bbc_2cols_x2_vec P x y]
+    | 7113 => Some [bbb_vec P x y]
+    | 7114 => Some [baa_vec P x y]
+    | 7115 => Some [map (fun xi => b_to_znx128 P (b_from_znx64 P xi)) x]
+    | 7116 => (* scalar pipeline: a -> q120b, b -> q120c, one-term bbc product, CRT reconstruction *)
+        Some [map (fun ab => b_to_znx128 P (bbc_vec P (flat_map (fun r => [r mod 2 ^ 32; r / 2 ^ 32]) (b_from_znx64 P (fst ab)))
+                                                       (c_from_znx64 P (snd ab))))
+                  (combine x y)]
+    | _ => None
+    end
+  end.
+
+(* ---------------- oracle: spec-level statements evaluated on the implementation's outputs ---------------- *)
+Definition allb {A} (f : A -> bool) (l : list A) : bool := forallb f l.
+Definition is_u64 (x : Z) : bool := (0 <=? x) && (x <? 2 ^ 64).
+Definition congb (q a b : Z) : bool := (a - b) mod q =? 0.
+Definition Qprod (ps : primeset) : Z := qk ps 0 * qk ps 1 * qk ps 2 * qk ps 3.
+(* exact dot product of two per-prime columns *)
+Definition dot (a b : list Z) : Z := fold_left (fun s p => s + fst p * snd p) (combine a b) 0.
+(* what the bbc kernel computes for arbitrary u32 inputs: sum of x_lo*y_lo + x_hi*y_hi; for a prepared operand
+   (y_hi = y_lo * 2^32 mod q) this is the sum of x * y_lo, x = x_lo + 2^32 x_hi  (theorem bbc_congr) *)
+Definition bbc_ok (P : primeset) (x y o : list Z) : bool :=
+  allb (fun k => is_u64 (nz o k) &&
+     congb (qk P k) (nz o k) (dot (col 8 (2 * k) x) (col 8 (2 * k) y) + dot (col 8 (2 * k + 1) x) (col 8 (2 * k + 1) y))) (seq 0 4).
+
+Definition oracle_c07_ntt (code : Z) (ps : list Z) (vs outs : list (list Z)) : Z :=
+  match pset (npar ps 1) with
+  | None => 2
+  | Some P =>
+    let x := nvec vs 0 in let y := nvec vs 1 in let o := nvec outs 0 in
+    let b2z (b : bool) : Z := if b then 1 else 0 in
+    let ks := seq 0 4 in
+    match code with
+    | 7101 => (* every residue is a u64 congruent to the coefficient *)
+        b2z (allb (fun pr => allb (fun k => is_u64 (nz (snd pr) k) && congb (qk P k) (nz (snd pr) k) (fst pr)) ks)
+                  (combine x (chunk 4 o)))
+    | 7102 => b2z (allb (fun pr => allb (fun k => is_u64 (nz (snd pr) k) && congb (qk P k) (nz (snd pr) k) (Z.land (fst pr) (npar ps 2))) ks)
+                  (combine x (chunk 4 o)))
+    | 7103 => b2z (allb (fun pr => allb (fun k =>
+                  let r := nz (snd pr) (2 * k) in let r' := nz (snd pr) (2 * k + 1) in
+                  (0 <=? r) && (r <? qk P k) && (0 <=? r') && (r' <? qk P k) &&
+                  congb (qk P k) r (fst pr) && congb (qk P k) r' (fst pr * 2 ^ 32)) ks) (combine x (chunk 8 o)))
+    | 7104 => b2z (allb (fun pr => allb (fun k =>
+                  let r := nz (snd pr) (2 * k) in let r' := nz (snd pr) (2 * k + 1) in
+                  (0 <=? r) && (r <? qk P k) && (0 <=? r') && (r' <? qk P k) &&
+                  congb (qk P k) r (nz (fst pr) k) && congb (qk P k) r' (nz (fst pr) k * 2 ^ 32)) ks)
+                  (combine (chunk 4 x) (chunk 8 o)))
+    | 7105 => (* the symmetric representative of the CRT class *)
+        b2z (allb (fun pr => (2 * Z.abs (snd pr) <? Qprod P) &&
+                             allb (fun k => congb (qk P k) (snd pr) (nz (fst pr) k)) ks) (combine (chunk 4 x) o))
+    | 7106 => b2z (allb (fun pr => allb (fun k => is_u64 (nz (snd pr) k) &&
+                  congb (qk P k) (nz (snd pr) k) (nz (fst (fst pr)) k + nz (snd (fst pr)) k)) ks)
+                  (combine (combine (chunk 4 x) (chunk 4 y)) (chunk 4 o)))
+    | 7108 => b2z (allb (fun pr => allb (fun k => is_u64 (nz (snd pr) k) &&
+                  congb (qk P k) (nz (snd pr) k) (nz (fst (fst pr)) k - nz (snd (fst pr)) k)) ks)
+                  (combine (combine (chunk 4 x) (chunk 4 y)) (chunk 4 o)))
+    | 7109 => b2z (allb (fun pr => allb (fun k => is_u64 (nz (snd pr) k) &&
+                  congb (qk P k) (nz (snd pr) k) (- nz (fst pr) k)) ks) (combine (chunk 4 x) (chunk 4 o)))
+    | 7110 => b2z (bbc_ok P x y o)
+    | 7111 => b2z (bbc_ok P (half 0 x) (half 0 y) (firstn 4 o) && bbc_ok P (half 1 x) (half 1 y) (skipn 4 o))
+    | 7112 => b2z (bbc_ok P (half 0 x) (quarter 0 y) (firstn 4 o) && bbc_ok P (half 1 x) (quarter 1 y) (firstn 4 (skipn 4 o)) &&
+                   bbc_ok P (half 0 x) (quarter 2 y) (firstn 4 (skipn 8 o)) && bbc_ok P (half 1 x) (quarter 3 y) (skipn 12 o))
+    | 7113 => b2z (allb (fun k => is_u64 (nz o k) && congb (qk P k) (nz o k) (dot (col 4 k x) (col 4 k y))) ks)
+    | 7114 => b2z (allb (fun k => is_u64 (nz o k) && congb (qk P k) (nz o k) (dot (col 4 k x) (col 4 k y))) ks)
+    | 7115 => b2z (if list_eq_dec Z.eq_dec o x then true else false)
+    | 7116 => b2z (if list_eq_dec Z.eq_dec o (map (fun ab => fst ab * snd ab) (combine x y)) then true else false)
+    | _ => 2
+    end
+  end.
